@@ -168,21 +168,25 @@ class MemoryPoolList {
   }
 
   Pool* addPool(Allocator* allocator) {
+    if (count_ >= maxPools)
+      return nullptr;
     if (count_ == capacity_ && !increaseCapacity(allocator))
       return nullptr;
     auto pool = &pools_[count_++];
-    SlotCount poolCapacity = ARDUINOJSON_POOL_CAPACITY;
+    auto poolCapacity = SlotCount(ARDUINOJSON_POOL_CAPACITY);
     if (count_ == maxPools)  // last pool is smaller because of NULL_SLOT
-      poolCapacity--;
+      poolCapacity =
+          SlotCount(NULL_SLOT - (maxPools - 1) * ARDUINOJSON_POOL_CAPACITY);
     pool->create(poolCapacity, allocator);
     return pool;
   }
 
   bool increaseCapacity(Allocator* allocator) {
-    if (capacity_ == maxPools)
+    if (capacity_ >= maxPools)
       return false;
     void* newPools;
-    auto newCapacity = PoolCount(capacity_ * 2);
+    auto newCapacity =
+        capacity_ > maxPools / 2 ? maxPools : PoolCount(capacity_ * 2);
 
     if (pools_ == preallocatedPools_) {
       newPools = allocator->allocate(newCapacity * sizeof(Pool));
@@ -208,7 +212,7 @@ class MemoryPoolList {
 
  public:
   static const PoolCount maxPools =
-      PoolCount(NULL_SLOT / ARDUINOJSON_POOL_CAPACITY + 1);
+      PoolCount((NULL_SLOT - 1) / ARDUINOJSON_POOL_CAPACITY + 1);
 };
 
 ARDUINOJSON_END_PRIVATE_NAMESPACE
